@@ -17,6 +17,10 @@ const (
 	posMask = (1 << posBits) - 1
 )
 
+// fillPayload writes into a buffer nobody else has seen yet; the race detector need not watch 125 000 stores
+// per megabyte.
+//
+//go:norace
 func fillPayload(dst []byte, id uint64, mask uint64) {
 	n := len(dst)
 	full := n / 8
